@@ -44,7 +44,7 @@ def main():
     MODELS = {"C01": "Expr, Lower, Typing, BV, Solve, Randset", "C02": "Solve, Expr, Lower, Randset", "C03": "World, Solve, Flags", "C04": "Unroll (+Expr)",
               "C05": "Soft, World", "C06": "Dyn", "C07": "World", "C08": "World", "C09": "Rnd", "C10": "Cov/Rangelist, Partition, Coverpoint",
               "C11": "Cov/Cross", "C12": "Cov/Covergroup", "C13": "Cov/Save", "C14": "Swizzle (+oracle)", "C15": "Select, Dist",
-              "C16": "Stacks, Flags", "C17": "World", "C18": "Val/Access (generated), Enum", "C19": "Cov/Wildcard", "C20": "Order"}
+              "C16": "Stacks, Flags", "C17": "World", "C18": "Val/Access (generated), Enum", "C19": "Cov/Wildcard", "C20": "Order, OrderTotal"}
     man = json.load(open(V / "MANIFEST.json"))
     rows2 = []
     for c in man.get("checks", man.get("properties", [])):
